@@ -23,6 +23,10 @@ class Timeout(Exception):
 def panic_signature(stderr):
     """(message, location) of the first panic block on stderr (color-eyre format or the default hook)"""
     t = ANSI.sub("", stderr or "")
+    m = re.search(r"(ERROR: AddressSanitizer[^\n]*|WARNING: ThreadSanitizer[^\n]*|ERROR: LeakSanitizer[^\n]*)", t)
+    if m:
+        fr = re.search(r"#\d+ \S+ in (\S*(?:lsp4spl|spl_frontend)\S*)", t)
+        return (m.group(1), fr.group(1) if fr else "")
     m = re.search(r"Message:\s+(.*?)\nLocation:\s+(\S+)", t, re.S)
     if m: return (" ".join(m.group(1).split()), m.group(2))
     m = re.search(r"panicked at ([^\n]*?):\n(.*?)\n", t, re.S)
